@@ -102,6 +102,32 @@ func scWithExtensions(p *scionPkt, hbh, e2e bool) []byte {
 
 func c05SCIONWorld(r *simcore.Run) any {
 	tp := r.Tape
+	if Root.SCIONClockClients != nil && r.Index%40 == 3 {
+		// "when NTS is enabled" is decided by the wiring: every client of a clock configured for
+		// NTS must have it on (each with a key-exchange fetcher of its own)
+		w0 := newSCIONWorld(r, 0, 1)
+		laddr, raddr := w0.udpAddrs()
+		cs := Root.SCIONClockClients(quietLog(), laddr, raddr, []string{"nts"}, "ke.example.net:4460")
+		for i, c := range cs {
+			if !c.Auth.NTSEnabled {
+				r.Fail("C05", "wiring/nts-not-enabled", "client %d of %d of a SCION reference clock configured with auth mode nts has NTS off: it accepts unauthenticated responses", i, len(cs))
+				return nil
+			}
+			for j := 0; j < i; j++ {
+				if &cs[j].Auth.NTSKEFetcher == &c.Auth.NTSKEFetcher {
+					r.Fail("C05", "wiring/shared-fetcher", "clients %d and %d share one key-exchange fetcher", j, i)
+					return nil
+				}
+			}
+		}
+		if len(cs) > 0 {
+			r.Probe("nts-enabled-on-every-wired-client")
+		}
+		r.Count("attacks", 1)
+		r.Count("measurements", 2)
+		r.Finish()
+		return map[string]any{"wiring_check": true, "clients": len(cs)}
+	}
 	useNTS := tp.Bool(1, 3, "nts")
 	scDrawFamily(r)
 	var w *scionWorld
